@@ -54,7 +54,7 @@ type ImgSpec struct {
 	Kind   string // noise | grad | blocks | pal | flat
 	Seed   uint64
 	Colors int    // for pal
-	Alpha  int    // 0 opaque, 1 binary blocks, 2 gradient, 3 random
+	Alpha  int    // 0 opaque, 1 binary blocks, 2 gradient, 3 random, 4 transparent corner + random band
 	Type   string // nrgba | rgba
 }
 
@@ -71,6 +71,7 @@ type OptSpec struct {
 	QMin, QMax              int
 	AComp, AFilt, AQual     int
 	Meta                    bool
+	PreprocOr               int `json:",omitempty"` // OR-ed into Preprocessing after the preset was applied
 }
 
 type AnimSpec struct {
@@ -158,6 +159,12 @@ func makeImage(s *ImgSpec) image.Image {
 				c.A = byte(x * 255 / maxi(1, s.W-1))
 			case 3:
 				c.A = byte(r.next())
+			case 4: // transparent corner, semi-transparent random band on the right
+				if x < s.W/3 && y < s.H/2 {
+					c.A = 0
+				} else if x > 2*s.W/3 {
+					c.A = byte(40 + r.next()%200)
+				}
 			}
 			im.SetNRGBA(x, y, c)
 		}
@@ -202,6 +209,7 @@ func makeOpts(o *OptSpec) *webp.EncoderOptions {
 		e.FilterSharpness = o.FSharp
 		e.Segments = o.Segs
 	}
+	e.Preprocessing |= o.PreprocOr
 	e.FilterType = o.FTyp
 	e.Partitions = o.Parts
 	e.Pass = o.Pass
@@ -622,6 +630,23 @@ func buildLibrary(c *Ctx, dir string) []libFile {
 		variants("vp8l", encode(&ImgSpec{W: sz[0], H: sz[1], Kind: "pal", Colors: []int{2, 5, 17, 200, 3}[i%5], Seed: uint64(300 + i), Type: "nrgba"}, &ol))
 		variants("vp8l", encode(&ImgSpec{W: sz[1], H: sz[0], Kind: []string{"noise", "grad", "blocks"}[i%3], Seed: uint64(400 + i), Alpha: i % 4, Type: "nrgba"}, &ol))
 	}
+	// 4 segments with weak filtering: some segments end at filter level 0 while others are
+	// filtered (Decoder.fstrengths keeps FILevel/HevThresh of level-0 segments unwritten)
+	for i, fs := range []int{3, 8, 15} {
+		o := dflt()
+		o.Segs, o.SNS, o.FStr, o.FTyp, o.FSharp, o.Q = 4, 100, fs, i%2, i*3, float32(30+30*i)
+		half := &ImgSpec{W: 64, H: 48, Kind: "blocks", Seed: uint64(600 + i), Type: "nrgba"}
+		img := makeImage(half).(*image.NRGBA)
+		for y := 0; y < 48; y++ { // left half flat, right half textured: distinct segments
+			for x := 0; x < 32; x++ {
+				img.SetNRGBA(x, y, color.NRGBA{120, 130, 140, 255})
+			}
+		}
+		var buf bytes.Buffer
+		if webp.Encode(&buf, img, makeOpts(&o)) == nil {
+			put("vp8", buf.Bytes())
+		}
+	}
 	// animations
 	for i := 0; i < 3; i++ {
 		as := &AnimSpec{CW: 40 + 8*i, CH: 32, Lossless: i == 1, Mixed: i == 2, Q: 70, Kmin: 0, Kmax: 0}
@@ -876,6 +901,53 @@ func (g *gen) history(group string) *history {
 				h.Calls = append(h.Calls, &Call{Op: "enc", Img: g.img(d[0], d[1]), Opt: o})
 			}
 		}
+	case "preset-dither-alpha": // presets x Preprocessing 1..3 (segment smoothing, dithering) x Method 6 x alpha, tiny and small images
+		sizes := [][2]int{{17, 13}, {17, 13}, {16, 16}, {33, 20}, {64, 70}, {5, 40}}
+		var rep *Call
+		for i := 0; i < n; i++ {
+			d := sizes[r.Intn(len(sizes))]
+			im := g.img(d[0], d[1])
+			im.Alpha = r.Pick(1, 2, 3, 4, 4, 0)
+			im.Kind = []string{"grad", "noise", "blocks", "pal"}[r.Intn(4)]
+			o := g.lossyOpts()
+			o.Preset = r.Intn(6)
+			o.TargetSize, o.TargetPSNR, o.Sharp = 0, 0, false
+			o.Q = float32(r.Pick(20, 40, 40, 75, 95))
+			o.Method = r.Pick(6, 6, 6, 4, 3, 5)
+			o.Preproc = r.Intn(4)
+			o.PreprocOr = r.Intn(4)
+			cl := &Call{Op: "enc", Img: im, Opt: o}
+			if rep == nil {
+				rep = cl
+			}
+			h.Calls = append(h.Calls, cl)
+			if r.Intn(3) == 0 { // an unrelated encode in between (fills the VP8L encoder's scratch)
+				big := g.img(3+r.Intn(60), 3+r.Intn(60))
+				bo := g.losslessOpts()
+				if r.Intn(3) == 0 {
+					bo = g.lossyOpts()
+					big.Alpha = r.Pick(1, 2, 3, 4)
+				}
+				h.Calls = append(h.Calls, &Call{Op: "enc", Img: big, Opt: bo})
+			}
+		}
+		h.Calls = append(h.Calls, rep) // the first call again, after the others
+		if r.Intn(3) == 0 {
+			h.Procs = 4
+		}
+	case "procs4-mixed": // GOMAXPROCS=4 in both processes (stability guard applies)
+		h.Procs = 4
+		for i := 0; i < n; i++ {
+			switch r.Intn(5) {
+			case 0:
+				h.Calls = append(h.Calls, g.decCall(g.pickLib(func(string) bool { return true })))
+			case 1:
+				h.Calls = append(h.Calls, &Call{Op: "enc", Img: g.img(1+r.Intn(90), 1+r.Intn(90)), Opt: g.losslessOpts()})
+			default:
+				d := g.dimsSameMB(r.Bool())[0]
+				h.Calls = append(h.Calls, &Call{Op: "enc", Img: g.img(d[0], d[1]), Opt: g.lossyOpts()})
+			}
+		}
 	case "parallel-lossy-enc": // GOMAXPROCS=4: parallelState / importUVWorker pools (mbH >= 4, method >= 3)
 		h.Procs = 4
 		for i := 0; i < n; i++ {
@@ -957,6 +1029,14 @@ type callOutcome struct {
 // runHistory executes the calls in this process from empty pools.  It returns the
 // outcomes and the index/description of the first returned value found modified.
 func runHistory(calls []*Call, procs int) (outs []callOutcome, mutated string) {
+	return runHistoryP(calls, procs, nil, nil)
+}
+
+// runHistoryP is runHistory with optional poisoning: before every call but the first,
+// the Scratch-classified fields (poison: "pkg.Type" → field names) of all objects
+// sitting in the pools are overwritten with garbage (webp.VerifPoisonPools); stats
+// accumulates "pkg.Type.field" → objects poisoned.
+func runHistoryP(calls []*Call, procs int, poison map[string][]string, stats map[string]int) (outs []callOutcome, mutated string) {
 	prev := runtime.GOMAXPROCS(procs)
 	defer runtime.GOMAXPROCS(prev)
 	emptyPools()
@@ -967,6 +1047,20 @@ func runHistory(calls []*Call, procs int) (outs []callOutcome, mutated string) {
 		if err != nil {
 			outs = append(outs, callOutcome{Digest: "prepare-error", Failed: true})
 			continue
+		}
+		if poison != nil && i > 0 {
+			done, objs, missing := webp.VerifPoisonPools(poison)
+			if stats != nil {
+				for k, n := range done {
+					stats[k] += n
+				}
+				for k, n := range objs {
+					stats["objects:"+k] += n
+				}
+				for _, m := range missing {
+					stats["missing:"+m]++
+				}
+			}
 		}
 		a0 := totalAlloc()
 		d, failed, keep := execCall(c, p)
@@ -985,6 +1079,56 @@ func runHistory(calls []*Call, procs int) (outs []callOutcome, mutated string) {
 		}
 	}
 	return
+}
+
+// scratchFields reads the classification table the Coq proofs use
+// (coq/theories/Conc/PoolFieldClass.v) and returns, per pooled Go type, the fields
+// classified Scratch — the poisoning probe and the theorems share one table.
+func scratchFields(verifDir string) (map[string][]string, error) {
+	b, err := os.ReadFile(filepath.Join(verifDir, "coq", "theories", "Conc", "PoolFieldClass.v"))
+	if err != nil {
+		return nil, err
+	}
+	names := map[string]string{
+		"class_VP8Encoder": "lossy.VP8Encoder", "class_TokenBuffer": "lossy.TokenBuffer", "class_lossy_Decoder": "lossy.Decoder",
+		"class_lossless_Encoder": "lossless.Encoder", "class_lossless_Decoder": "lossless.Decoder",
+		"class_parallelState": "lossy.parallelState", "class_RowWorker": "lossy.RowWorker",
+		"class_importUVWorker": "lossy.importUVWorker", "class_BoolWriter": "bitio.BoolWriter",
+	}
+	out := map[string][]string{}
+	text := string(b)
+	for coqName, goName := range names {
+		i := strings.Index(text, "Definition "+coqName+" ")
+		if i < 0 {
+			return nil, fmt.Errorf("classification table %s not found", coqName)
+		}
+		rest := text[i:]
+		j := strings.Index(rest, "].")
+		if j < 0 {
+			return nil, fmt.Errorf("classification table %s: no end", coqName)
+		}
+		body := rest[:j]
+		n := 0
+		for _, part := range strings.Split(body, "(\"")[1:] {
+			q := strings.Index(part, "\"")
+			if q < 0 {
+				continue
+			}
+			field := part[:q]
+			after := strings.TrimLeft(part[q+1:], ", ")
+			n++
+			if strings.HasPrefix(after, "Scratch") {
+				out[goName] = append(out[goName], field)
+			}
+		}
+		if n == 0 {
+			return nil, fmt.Errorf("classification table %s: no entries parsed", coqName)
+		}
+		if _, ok := out[goName]; !ok {
+			out[goName] = []string{}
+		}
+	}
+	return out, nil
 }
 
 func reuseObserved(hist uint64, fresh *childResult) bool {
@@ -1075,8 +1219,8 @@ func run(c *Ctx) {
 	var hs []*history
 	hs = append(hs, regressionHistories(g)...)
 
-	groups := []string{"lossy-enc-same-mb", "lossy-enc-option-pairs", "larger-then-smaller", "lossless-colours", "lossless-big-then-small", "decode-aba", "anim-between-stills", "mixed", "parallel-lossy-enc"}
-	per := map[string]int{"lossy-enc-same-mb": 14, "lossy-enc-option-pairs": 10, "larger-then-smaller": 6, "lossless-colours": 8, "lossless-big-then-small": 10, "decode-aba": 16, "anim-between-stills": 6, "mixed": 6, "parallel-lossy-enc": 4}
+	groups := []string{"lossy-enc-same-mb", "lossy-enc-option-pairs", "larger-then-smaller", "lossless-colours", "lossless-big-then-small", "decode-aba", "anim-between-stills", "mixed", "parallel-lossy-enc", "preset-dither-alpha", "procs4-mixed"}
+	per := map[string]int{"lossy-enc-same-mb": 14, "lossy-enc-option-pairs": 10, "larger-then-smaller": 6, "lossless-colours": 8, "lossless-big-then-small": 10, "decode-aba": 16, "anim-between-stills": 6, "mixed": 6, "parallel-lossy-enc": 4, "preset-dither-alpha": 10, "procs4-mixed": 5}
 	if c.Thorough() {
 		for k := range per {
 			per[k] *= 12
@@ -1103,7 +1247,41 @@ func run(c *Ctx) {
 		fc.prefetch(calls, procs, workers)
 	}
 
+	scratch, serr := scratchFields(os.Getenv("VERIF_DIR"))
+	if serr != nil {
+		c.Violate("poison:classification-table-unreadable", serr.Error(), nil)
+	}
+	poisonStats := map[string]int{}
+
 	for hi, h := range hs {
+		if scratch != nil {
+			pouts, _ := runHistoryP(h.Calls, h.Procs, scratch, poisonStats)
+			c.D.Evaluations += len(h.Calls)
+			for i, cl := range h.Calls {
+				fr := fc.get(cl, h.Procs)
+				if fr.Err != "" || fr.Digest2 != fr.Digest || pouts[i].Digest == fr.Digest {
+					continue
+				}
+				plain, _ := runHistory(h.Calls[:i+1], h.Procs)
+				if plain[i].Digest != fr.Digest {
+					continue // differs without poisoning too: reported by the plain pass below
+				}
+				if h.Procs > 1 {
+					// confirm at GOMAXPROCS>1: the poisoned run must reproduce, fresh processes must agree
+					again, _ := runHistoryP(h.Calls[:i+1], h.Procs, scratch, nil)
+					r1, r2 := fc.spawn(cl, h.Procs), fc.spawn(cl, h.Procs)
+					if again[i].Digest != pouts[i].Digest || r1.Digest != fr.Digest || r2.Digest != fr.Digest {
+						c.Count("skipped:unstable-under-parallelism")
+						continue
+					}
+				}
+				c.Count("poison-mismatch")
+				culprit := poisonCulprit(h, i, fr, scratch)
+				c.Violate("poison:"+culprit, fmt.Sprintf("with the Scratch fields of the pooled objects filled with garbage before the call, call #%d returns %q instead of %q: %s is read before it is written", i, pouts[i].Digest, fr.Digest, culprit),
+					map[string]any{"history": h.Calls[:i+1], "procs": h.Procs, "poisoned_field": culprit, "fresh": fr.Digest, "got": pouts[i].Digest})
+				break
+			}
+		}
 		outs, mutated := runHistory(h.Calls, h.Procs)
 		c.D.Evaluations += len(h.Calls)
 		c.Count("history:" + h.Group)
@@ -1139,6 +1317,9 @@ func run(c *Ctx) {
 				if h.Procs > 1 && !stableUnderParallelism(h, i, cl, fr, fc) {
 					// the result varies between identical runs at GOMAXPROCS>1: scheduling (C10), not history
 					c.Count("skipped:unstable-under-parallelism")
+					if b, err := json.Marshal(map[string]any{"history": h.Calls[:i+1], "procs": h.Procs}); err == nil && len(c.D.Notes) < 6 {
+						c.D.Notes = append(c.D.Notes, "result unstable between identical runs at GOMAXPROCS>1 (scheduling, C10 territory; not counted for C11): "+string(b))
+					}
 					continue
 				}
 				c.Count("mismatch")
@@ -1156,12 +1337,86 @@ func run(c *Ctx) {
 			c.Sample(map[string]any{"group": h.Group, "calls": h.Calls, "results": outs})
 		}
 	}
+	npoisoned := 0
+	for k, n := range poisonStats {
+		switch {
+		case strings.HasPrefix(k, "missing:"):
+			c.Violate("poison:unknown-field:"+k[8:], "a field classified in PoolFieldClass.v is not a field of the Go struct", nil)
+		case strings.HasPrefix(k, "objects:"):
+			c.D.Distribution["poisoned-objects:"+k[8:]] += n
+		default:
+			npoisoned++
+			c.D.Distribution["poisoned-field:"+k] += n
+		}
+	}
+	if scratch != nil {
+		for typ, fs := range scratch {
+			for _, f := range fs {
+				if poisonStats[typ+"."+f] == 0 && !(typ == "lossy.parallelState" && f == "workers") { // workers: poisoned per RowWorker
+					c.Count("never-poisoned:" + typ + "." + f)
+				}
+			}
+		}
+	}
+	c.D.Notes = append(c.D.Notes, fmt.Sprintf("poisoning pass: every history re-run with all Scratch-classified fields of all pooled objects overwritten with 0xA5 before each call (list parsed from coq/theories/Conc/PoolFieldClass.v): %d distinct fields poisoned at least once", npoisoned))
 	c.Count(fmt.Sprintf("fresh-processes:%d", fc.n))
 	c.D.Notes = append(c.D.Notes,
 		fmt.Sprintf("%d histories, %d calls, %d fresh child processes; GOMAXPROCS=1 and GC disabled during each history (group parallel-lossy-enc: GOMAXPROCS=4 in both processes)", len(hs), c.D.Evaluations, fc.n),
 		"no extracted model for C11: correspondence = regenerated Gen/Fields.v obligations (translator tie) + this differential; cases.txt is empty by design")
 	// deterministic order of violations
 	sort.SliceStable(c.D.Violations, func(i, j int) bool { return c.D.Violations[i].Key < c.D.Violations[j].Key })
+}
+
+// poisonCulprit re-runs the history prefix poisoning one field at a time and names the
+// first field whose poisoning alone changes the victim's result.
+type blame struct {
+	typ, field string
+	toCap      bool
+	name       string
+}
+
+var blamed []blame
+
+func poisonCulprit(h *history, i int, fr *childResult, scratch map[string][]string) string {
+	var types []string
+	for t := range scratch {
+		types = append(types, t)
+	}
+	sort.Strings(types)
+	defer webp.VerifPoisonToCap(true)
+	// fields already blamed in this run first (usually the same defect again)
+	for _, prev := range blamed {
+		webp.VerifPoisonToCap(prev.toCap)
+		outs, _ := runHistoryP(h.Calls[:i+1], h.Procs, map[string][]string{prev.typ: {prev.field}}, nil)
+		if outs[i].Digest != fr.Digest {
+			return prev.name
+		}
+	}
+	for _, t := range types {
+		// whole type first (cheap rejection)
+		webp.VerifPoisonToCap(true)
+		outs, _ := runHistoryP(h.Calls[:i+1], h.Procs, map[string][]string{t: scratch[t]}, nil)
+		if outs[i].Digest == fr.Digest {
+			continue
+		}
+		// one field at a time; len-only first (fields that share a slab overlap up to cap)
+		for _, toCap := range []bool{false, true} {
+			webp.VerifPoisonToCap(toCap)
+			for _, f := range scratch[t] {
+				outs, _ := runHistoryP(h.Calls[:i+1], h.Procs, map[string][]string{t: {f}}, nil)
+				if outs[i].Digest != fr.Digest {
+					name := t + "." + f
+					if toCap {
+						name += "[len:cap]"
+					}
+					blamed = append(blamed, blame{t, f, toCap, name})
+					return name
+				}
+			}
+		}
+		return t + ".<combination>"
+	}
+	return "<combination-of-types>"
 }
 
 // stableUnderParallelism confirms a disagreement seen at GOMAXPROCS>1: two more fresh
@@ -1247,7 +1502,11 @@ func regressionHistories(g *gen) []*history {
 			goods = append(goods, &g.lib[i])
 		}
 	}
-	for i := 0; i < len(truncs); i++ {
+	step := 1
+	if len(truncs) > 24 {
+		step = 2 // every other damaged file in the quick tier is enough (decodes are cheap but each history runs twice)
+	}
+	for i := 0; i < len(truncs); i += step {
 		gd := goods[(i*3+1)%len(goods)]
 		out = append(out, &history{Group: "regression-failed-decode-then-decode", Procs: 1, Calls: []*Call{g.decCall(truncs[i]), g.decCall(gd)}})
 	}
